@@ -156,7 +156,7 @@ def pPostfixExpression (self : Self) (compoundType : Option Val) : P Val := do
     let init ← self .initializerList
     let _ ← accept "COMMA"
     let _ ← expect "RBRACE"
-    self (.postfixLoop (mk .CompoundLiteral none [t, init]))
+    self (.postfixLoop (mk .CompoundLiteral (← valCoord t "typ.coord") [t, init]))
   | none =>
     let e ← self .primaryExpression
     self (.postfixLoop e)
